@@ -78,6 +78,7 @@ type FlowScript struct {
 	Default  HopSpec         `json:"default"`
 	Hops     map[int]HopSpec `json:"hops,omitempty"` // by TTL
 	AddrKind string          `json:"addr_kind,omitempty"` // "" public | private | mix
+	Addrs    map[int]string  `json:"addrs,omitempty"`     // explicit responder address by TTL
 }
 
 func (s *FlowScript) Hop(ttl int) HopSpec {
